@@ -82,6 +82,13 @@ def apply(ctx, W):
             ("vftable_functions is None && first_base is None ==> res is Ok", ("C03",), "no-vftable-no-error"),
             ("""res is Ok ==> vftable_result_ok(&final(semantic).type_registry, *resolvee_path,
                     (match first_base { Some(r) => Some(*r), None => None::<Region> }), vftable_functions, res->Ok_0)""", ("C06",), "vftable-result"),
+            # C16 "the same function has the same convention in every derived vftable": the convention-only part of the
+            # slot equality, as a clause of its own so that a comparison that forgets the convention fails *this* property
+            ("""res is Ok && res->Ok_0.0 is Some ==> match base_vftable_of(&final(semantic).type_registry, (match first_base { Some(r) => Some(*r), None => None::<Region> })) {
+                    Some(Some((_, bv))) => forall|i: int| 0 <= i < bv.functions@.len() ==> i < res->Ok_0.0->0.functions@.len()
+                        && (#[trigger] res->Ok_0.0->0.functions@[i]).calling_convention == bv.functions@[i].calling_convention,
+                    _ => true,
+                }""", ("C16",), "vftable-conventions-shared"),
             ("final(semantic).type_registry.types@.dom() == old(semantic).type_registry.types@.dom()", ("C10",), "attempt-keeps-key-set"),
             ("""forall|q: ItemPath| #![trigger final(semantic).type_registry.types@[q]] old(semantic).type_registry.types@.contains_key(q)
                     ==> final(semantic).type_registry.types@[q] == old(semantic).type_registry.types@[q]""", ("C14",), "generated-item-does-not-overwrite"),
@@ -90,6 +97,7 @@ def apply(ctx, W):
     rules.for_to_index_loop(ctx, vf, u, lp, seq="base_vftable.functions", ivar="i_z", zip_with="vftable_functions")
     rules.index_loop_spec(ctx, vf, u, lp, tags=("C06",), invariants=[
         ("forall|i: int| 0 <= i < i_z ==> #[trigger] vftable_functions@[i] == base_vftable.functions@[i]", ("C06",)),
+        ("forall|i: int| 0 <= i < i_z ==> (#[trigger] vftable_functions@[i]).calling_convention == base_vftable.functions@[i].calling_convention", ("C16",)),
     ])
 
     ai = [m for m in vf.method_calls(fn, "add_item")]
